@@ -1,10 +1,24 @@
-//! faultsim engine. See /verif/DESIGN.md section 2 and /verif/harness/AGENT_GUIDE.md.
+//! faultsim engine: storage fault injection (C04), crash injection (C05), forced interleavings of
+//! readers and a committing writer (C06). See /verif/DESIGN.md section 2 and 5.
+#[macro_use]
+extern crate kanidmd_lib;
+
+mod c04;
+mod c05;
+mod c06;
+mod fx;
+mod probe;
 
 fn main() {
     let args = kvcore::parse_args();
     match args.prop.as_str() {
+        "C04" => c04::run(args),
+        "C05" => c05::run(args),
+        "C06" => c06::run(args),
+        "C05CHILD" => c05::child(args),
+        "probe" => probe::run(args),
         p => {
-            println!("INCONCLUSIVE property={p} reason=faultsim does not serve this property yet");
+            println!("INCONCLUSIVE property={p} reason=faultsim does not serve this property");
             std::process::exit(2);
         }
     }
